@@ -30,7 +30,7 @@ def cases(tier, seed):
     out = []
     subsets = [s for k in (1, 2, 3) for s in itertools.combinations(range(3), k)]
     if tier == "quick":
-        Ns, ms, ks = (2, 3), (2, 3), ("0", "+g", "pi")
+        Ns, ms, ks = (2, 3), (2, 3), ("0", "+g", "-g", "pi")
         others = ("none", "pecpmc")
     else:
         Ns, ms, ks = (2, 3, 4), (2, 3), ("0", "+g", "-g", "pi", "seed")
@@ -57,7 +57,7 @@ def bounds(tier, seed):
         "periodic_axis_subsets": "all 7 non-empty subsets",
         "N": [2, 3] if tier == "quick" else [2, 3, 4],
         "m": [2, 3],
-        "k_classes": ["0 (periodic)", "+generic", "pi/L"] if tier == "quick" else ["0", "+generic", "-generic", "pi/L", "seed"],
+        "k_classes": ["0 (periodic)", "+generic", "-generic", "pi/L"] if tier == "quick" else ["0", "+generic", "-generic", "pi/L", "seed"],
         "transverse": "size 2-3 cells, faces none | (pec,pmc) | pec | pmc",
         "materials": ["iso", "diag", "full", "iso+mu"],
         "grids": ["uniform", "rect_distinct (tiled widths)"],
